@@ -18,7 +18,7 @@ func ValidateUpdateMsg(m *BGPUpdate, rfs map[Family]BGPAddPathMode, isEBGP bool,
 
 	if len(m.NLRI) > 0 || len(m.WithdrawnRoutes) > 0 {
 		if _, ok := rfs[RF_IPv4_UC]; !ok {
-			return false, NewMessageError(0, 0, nil, fmt.Sprintf("Address-family rf %d not available for session", RF_IPv4_UC))
+			return false, NewMessageError(BGP_ERROR_UPDATE_MESSAGE_ERROR, BGP_ERROR_SUB_INVALID_NETWORK_FIELD, nil, fmt.Sprintf("Address-family rf %d not available for session", RF_IPv4_UC))
 		}
 	}
 
@@ -92,7 +92,7 @@ func ValidateAttribute(a PathAttributeInterface, rfs map[Family]BGPAddPathMode, 
 
 	checkPrefix := func(family Family, l []PathNLRI) error {
 		if _, ok := rfs[family]; !ok {
-			return NewMessageError(0, 0, nil, fmt.Sprintf("Address-family %s not available for this session", family))
+			return NewMessageError(BGP_ERROR_UPDATE_MESSAGE_ERROR, BGP_ERROR_SUB_OPTIONAL_ATTRIBUTE_ERROR, nil, fmt.Sprintf("Address-family %s not available for this session", family))
 		}
 
 		for _, prefix := range l {
@@ -101,7 +101,7 @@ func ValidateAttribute(a PathAttributeInterface, rfs map[Family]BGPAddPathMode, 
 				t := BGPFlowSpecType(0)
 				for _, v := range prefix.NLRI.(*FlowSpecNLRI).Value {
 					if v.Type() <= t {
-						return NewMessageError(0, 0, nil, fmt.Sprintf("%s nlri violate strict type ordering", family))
+						return NewMessageError(BGP_ERROR_UPDATE_MESSAGE_ERROR, BGP_ERROR_SUB_OPTIONAL_ATTRIBUTE_ERROR, nil, fmt.Sprintf("%s nlri violate strict type ordering", family))
 					}
 					t = v.Type()
 				}
